@@ -184,7 +184,7 @@ func WithContextPropagator(propagator ContextPropagator) Option {
 //  2. Interface match — the first registered interface the message implements.
 //
 // Registration order within each category determines priority.
-// If serializer is nil the option is silently ignored.
+// If serializer is nil or msg is an untyped nil the option is silently ignored.
 //
 // The default configuration registers [ProtoSerializer] for all [proto.Message]
 // implementations. Calling this option with a typed nil pointer to
@@ -196,9 +196,13 @@ func WithSerializers(msg any, serializer Serializer) Option {
 		}
 
 		typ := reflect.TypeOf(msg)
+		// An untyped nil message has no type to register a serializer for.
+		if typ == nil {
+			return
+		}
 		// A typed nil pointer whose element is an interface (e.g. (*proto.Message)(nil))
 		// registers the serializer for all values that implement that interface.
-		if typ != nil && typ.Kind() == reflect.Pointer && typ.Elem().Kind() == reflect.Interface {
+		if typ.Kind() == reflect.Pointer && typ.Elem().Kind() == reflect.Interface {
 			config.serializers[typ.Elem()] = serializer
 			return
 		}
